@@ -65,7 +65,7 @@ def run(ctx, rep):
         rep.sample({k: show(c.values.get(k), maxd=5)[:260]})
 
     # ---- R6.4 policy None preserves validity --------------------------------------
-    pa = W.get(ctx)
+    pa = W.get(ctx, rep)
     ict = W.interval_cond_terms(pa)
     n = 0
     for w in pa.worlds:
@@ -86,3 +86,7 @@ def run(ctx, rep):
     rep.floor('policy-None worlds', n, 16)
     rep.extra['worlds'] = n
     rep.extra['exhaustive'] = True
+    # Imsaak is a prayer time too: it is the Fajr of a rerun with perturbed parameters, and the minutes fallback applies only to
+    # an extreme (replaced) Fajr - otherwise an Imsaak is fabricated where the Sun never reaches its altitude
+    from . import imsaak as _imsaak
+    _imsaak.check(ctx, rep, 'R6.5')
